@@ -222,13 +222,32 @@ fn family(i: usize, n: usize) -> String {
 const FAMILIES: usize = 22;
 
 // ---------------------------------------------------------------- executing one input (in the child, on a small stack)
+type Job = Box<dyn FnOnce() -> Result<String, String> + Send + 'static>;
+static WORKER: std::sync::OnceLock<std::sync::Mutex<std::sync::mpsc::Sender<(Job, std::sync::mpsc::Sender<Result<String, String>>)>>> = std::sync::OnceLock::new();
+
+/// Run `f` on the persistent worker thread whose stack is 2 MiB (a fresh thread per case costs several
+/// milliseconds here: per-thread hasher seeding and stack mapping dominate). Panics are caught on the worker; a
+/// stack overflow still aborts the whole (child) process, which is what the parent watches for.
 fn on_small_stack<F: FnOnce() -> Result<String, String> + Send + 'static>(f: F) -> Result<String, String> {
-    let h = std::thread::Builder::new().stack_size(2 << 20).spawn(move || vcore::drive::catch(f)).map_err(|e| e.to_string())?;
-    match h.join() {
-        Ok(Ok(r)) => r,
-        Ok(Err(p)) => Err(format!("panic: {}", p)),
-        Err(_) => Err("thread panicked".into()),
-    }
+    let tx = WORKER.get_or_init(|| {
+        let (tx, rx) = std::sync::mpsc::channel::<(Job, std::sync::mpsc::Sender<Result<String, String>>)>();
+        std::thread::Builder::new()
+            .stack_size(2 << 20)
+            .spawn(move || {
+                while let Ok((job, back)) = rx.recv() {
+                    let r = match vcore::drive::catch(job) {
+                        Ok(r) => r,
+                        Err(p) => Err(format!("panic: {}", p)),
+                    };
+                    let _ = back.send(r);
+                }
+            })
+            .expect("worker thread");
+        std::sync::Mutex::new(tx)
+    });
+    let (btx, brx) = std::sync::mpsc::channel();
+    tx.lock().unwrap().send((Box::new(f), btx)).map_err(|e| e.to_string())?;
+    brx.recv().map_err(|e| format!("worker died: {}", e))?
 }
 
 fn work_bound(size: usize) -> u64 {
@@ -347,7 +366,7 @@ pub fn run_child(ctx: &mut Ctx) {
     ctx.assume("stack budget 2 MiB per case (tokio worker default); nesting in JSON is bounded by serde_json's own recursion limit (client JSON never reaches the library deeper than 128)");
     ctx.assume("'stops making progress' is decided by the deterministic work counter (verif-hooks) against 10000 + 64*size^2 and by the parent's watchdog (exit 2, never a violation); the fragment fan-out family is C11's subject and not generated here");
     let schema: U = Schema::build(Query, Mutation, Sub).finish();
-    let n = ctx.tier.pick(6_000, 500_000);
+    let n = ctx.tier.pick(100_000, 3_000_000);
 
     // adversarial families at growing sizes
     let sizes: Vec<usize> = ctx.tier.pick(vec![8, 63, 64, 65, 66, 200, 2_000, 20_000], vec![8, 63, 64, 65, 66, 200, 2_000, 20_000, 200_000, 1_000_000]);
